@@ -420,6 +420,21 @@ impl Server {
         res.map_err(Into::into)
     }
 
+    /// Performs one update cycle of the server (verification builds only).
+    #[cfg(routinator_verif)]
+    pub fn verif_process_once(
+        config: &Config,
+        engine: &Engine,
+        history: &SharedHistory,
+        notify: &mut NotifySender,
+        exceptions: &LocalExceptions,
+        initial: bool,
+    ) -> Result<(), RunFailed> {
+        Self::process_once(
+            config, engine, history, notify, exceptions, initial
+        )
+    }
+
     fn process_once(
         config: &Config,
         engine: &Engine,
